@@ -53,6 +53,7 @@ def mutants(prog):
         ("nonrigid disp: no resampling", B, "SpatialTransform.disp", "flow = flow.sample(grid)", "flow = flow", "T67.nonrigid-disp"),
         ("warp_points drops convention", "deepali.core.flow", "warp_points", "sample_flow(flow, coords, align_corners=align_corners)", "sample_flow(flow, coords)", "T67.nonrigid-points"),
         ("pointset: input axes", T, "PointSetTransformer.forward", "points = self._grid.transform_points(points, axes=self._axes,", "points = self._grid.transform_points(points, axes=self._to_axes,", "T67.pointset"),
+        ("transformer: default source is the transform grid", T, "ImageTransformer.__init__", "source = target", "source = transform.grid()", "T67.warp"),
     ]
     for name, mod, fn, old, new, expect in specs:
         ov = source_sub(prog, mod, fn, old, new)
